@@ -357,6 +357,8 @@ def mechanism_call(spec, fresh=True):
             kw['max_model_size'] = spec['max_model_size']
         if spec.get('prng') == 'np.random':
             kw['prng'] = np.random
+        if 'zeros' in spec:
+            kw['structural_zeros'] = {tuple(k): [tuple(c) for c in v] for k, v in spec['zeros']}
         if spec.get('reuse'):
             if fresh or 'aim' not in _REUSED:
                 _REUSED['aim'] = mod.AIM(eps, delta, rounds=spec.get('rounds'), **kw)
